@@ -613,6 +613,26 @@ pub fn corpus<F: FnMut(&'static str, &[u8])>(c: &CorpusCfg, f: &mut F) {
     fam_semantic(c, f);
     fam_heavy(c, f);
     fam_max_deltas(c, f);
+    fam_length_twins(c, f);
+}
+
+/// neighbouring option instances whose value lengths differ by exactly 2^16 (or 2^8): whatever an
+/// encoder remembers about "the previous header" must not be keyed on truncated lengths
+fn fam_length_twins<F: FnMut(&'static str, &[u8])>(c: &CorpusCfg, f: &mut F) {
+    if c.level == 0 || !c.mine(5) {
+        return;
+    }
+    for (a, b) in [(5usize, 65541usize), (0, 65536), (200, 65736), (268, 65804), (13, 269), (12, 268), (1, 257), (300, 556)] {
+        for delta_second in [0u16, 1, 2, 13] {
+            for swap in [false, true] {
+                let (l1, l2) = if swap { (b, a) } else { (a, b) };
+                let m = Msg { ver: 1, typ: 1, token: vec![9], code: 2, mid: 5, options: vec![(1, vec![0x31; l1]), (1 + delta_second, vec![0x32; l2]), (20, vec![7])], payload: vec![1] };
+                if let Some(bytes) = refcodec::encode(&m) {
+                    f("length-twins", &bytes);
+                }
+            }
+        }
+    }
 }
 
 /// very many options that each carry the largest two-byte extended delta (the running number passes
